@@ -26,7 +26,13 @@ fn main() {
         let k = if k == 98 { 0 } else { k };
         let mut rep = srtla_verif::evidence::Report::new();
         let t0 = std::time::Instant::now();
-        let plan = if k == 99 { RealPlan::Full { depth } } else { RealPlan::Dev { k, depth, default: 0 } };
+        let plan = if let Ok(p) = std::env::var("REALX_PATH") {
+            RealPlan::Explicit { name: "path".into(), paths: vec![p.split(',').filter_map(|x| x.trim().parse().ok()).collect()] }
+        } else if k == 99 {
+            RealPlan::Full { depth }
+        } else {
+            RealPlan::Dev { k, depth, default: 0 }
+        };
         let cov = explore(&mut rep, &m, &plan, keys, std::time::Duration::from_secs(600));
         println!("{} {}: executions {} rounds {} distinct {} wall {:.1}s cov {:?}", m.name, plan.describe(), rep.traces, rep.transitions, rep.states, t0.elapsed().as_secs_f64(), cov);
         for v in &rep.violations {
